@@ -253,8 +253,11 @@ static void __attribute__((noinline)) run_file(CPPPreprocessor *pp) {
 #include "c09_files.h"
 #define CAT2(a, b) a##b
 #define CAT(a, b) CAT2(a, b)
-#define NFILES CAT(C09_NFILES_, NLINES)
-#define FILES CAT(C09_FILES_, NLINES)
+#ifndef FILESET
+#define FILESET F           // F: all 17 kinds per line; R: 7 classes, spelling by line number
+#endif
+#define NFILES CAT(CAT(C09_NFILES_, FILESET), NLINES)
+#define FILES CAT(CAT(C09_FILES_, FILESET), NLINES)
 
 extern "C" void harness_c09_cond() {
   CPPPreprocessor *pp = new CPPPreprocessor;
